@@ -665,3 +665,23 @@ func isFollowByte(c byte) bool {
 //@   props C01
 //@   ensures exact: iff(result, len(buf) >= 6 && buf[0] == 'f' && buf[1] == 'a' && buf[2] == 'l' && buf[3] == 's' && buf[4] == 'e' && isFollowByte(buf[5]))
 //@   safe [C05]
+
+// numberWords(buf,p,id,val): the two tape words parseNumber's contract allows for the token buf[:p]
+func numberWords(buf []byte, p int, id, val uint64) bool {
+	return implies(id == uint64(TagInteger)<<56, !hasFloatOnly(buf, p) && specParseIntOK(buf[:p]) && val == specParseIntVal(buf[:p])) &&
+		implies(id == uint64(TagUint)<<56, !hasFloatOnly(buf, p) && !hasMinus(buf, p) && !specParseIntOK(buf[:p]) && specParseUintOK(buf[:p]) && val == specParseUintVal(buf[:p])) &&
+		implies(tagOf(id) == TagFloat, specParseFloatOK(buf[:p]) && val == specParseFloatBits(buf[:p])) &&
+		implies(id == uint64(TagFloat)<<56|uint64(FloatOverflowedInteger), !hasFloatOnly(buf, p)) &&
+		implies(id == uint64(TagFloat)<<56 && !hasFloatOnly(buf, p), p <= 20 && !specParseIntOK(buf[:p]) && !specParseIntRange(buf[:p]) && (hasMinus(buf, p) || !specParseUintRange(buf[:p]))) &&
+		(id == uint64(TagInteger)<<56 || id == uint64(TagUint)<<56 || id == uint64(TagFloat)<<56 || id == uint64(TagFloat)<<56|uint64(FloatOverflowedInteger)) &&
+		p > 0 && noLeadingZero(buf, p)
+}
+
+//@ func addNumber
+//@   props C03 C01 C02
+//@   ghost p int
+//@   requires tokenEnd(buf, p) && pj != nil && len(pj.Tape) < 1<<40
+//@   ensures appended: implies(result, len(pj.Tape) == len(old(pj.Tape))+2 && numberWords(buf, p, pj.Tape[len(old(pj.Tape))], pj.Tape[len(old(pj.Tape))+1]))
+//@   ensures prefix: forall(0, len(old(pj.Tape)), func(j int) bool { return pj.Tape[j] == old(pj.Tape)[j] })
+//@   ensures rejected: implies(!result, len(pj.Tape) == len(old(pj.Tape)))
+//@   safe [C05]
